@@ -23,6 +23,8 @@ def fl(r):
 def arr(rs, container="array"):
     if container == "list":
         return [fl(r) for r in rs]
+    if container == "intlist" and all(r[1] == 1 for r in rs):
+        return [int(r[0]) for r in rs]
     if container == "int" and all(r[1] == 1 for r in rs):
         return np.array([r[0] for r in rs], dtype=np.int64)
     return np.array([fl(r) for r in rs], dtype=float)
@@ -341,7 +343,7 @@ def ex_shiftscale(c):
 
 # ---------------------------------------------------------------------------------------------- C13
 def ex_interp(c):
-    x, y, q = arr(c["x"]), arr(c["y"]), arr(c["q"])
+    x, y, q = arr(c["x"], c.get("xcontainer", "array")), arr(c["y"]), arr(c["q"], c.get("qcontainer", "array"))
     kw = {} if c["left"] == NONE else {"left": fl(c["left"])}
     coc, co = guarded(lambda: proc.interpolate(x, y, q, method="constant", **kw))
     loc, lo = guarded(lambda: proc.interpolate(x, y, q, method="linear"))
